@@ -66,6 +66,7 @@ class Air:
         self.nth = {}           # src name -> [non-ack count, ack count]
         self.collisions = 0
         self.hook = None        # optional callback(rec) after delivery
+        self.blackout = False   # harness-switched fault: every packet is lost while set
 
     # ------------------------------------------------------------------ registry
     def register(self, radio):
@@ -130,6 +131,12 @@ class Air:
     def _finish(self, rec):
         self.active.remove(rec)
         pkt = rec["pkt"]
+        if self.blackout:
+            # explicit fault: nothing transmitted during a blackout reaches anybody
+            self.plan.fired["blackout"] = self.plan.fired.get("blackout", 0) + 1
+            rec["rx"].append(("*", "fault:blackout"))
+            self.sim.log("fault", rec["src"], "blackout", rec["n"])
+            return
         if rec["hit"]:
             self.collisions += 1
             self.sim.count("collision")
